@@ -40,7 +40,7 @@ func verif_harness_C19_resolver_addrs() {
 // C18 (3b) — the custom resolver rotates over its addresses: from an
 // arbitrary counter state the next dial uses addrs[(idx+1) mod len].
 //
-//verif:harness param.k=1..4 unwind=16
+//verif:harness mode=int param.k=1..4 unwind=16
 func verif_harness_C18_resolver_rotation() {
 	k := verif_param("k")
 	addrs := []string{"a", "b", "c", "d"}[:k]
